@@ -49,7 +49,10 @@ struct c08_session : public vsim_session {
         o << "MV " << c->name << " act=" << (fa.enabled ? 1 : 0) << " rc=" << fa.ref_count
           << " awake=" << (fw.enabled ? 1 : 0) << " apply=" << (fp.enabled ? 1 : 0) << " arc=" << fp.ref_count
           << " x=" << vs_hex(c->x) << " fb=" << vs_hex(c->fb) << " fba=" << vs_hex(c->fb_actual)
-          << " f=" << vs_hex(c->f) << "\n";
+          << " f=" << vs_hex(c->f)
+          << " ext=" << (c->is_enabled(colvardeps::f_cv_extended_Lagrangian) ? 1 : 0)
+          << " xr=" << vs_hex(c->value()) << " xa=" << vs_hex(c->actual_value())
+          << " fr=" << vs_hex(c->fr) << " extk=" << vs_hex(c->ext_force_k) << "\n";
       }
       for (colvarbias *b : cv->biases) {
         colvardeps::feature_state const &fa = b->feature_states[colvardeps::f_cvb_active];
